@@ -158,6 +158,13 @@ class _Return(Exception):
         self.value = value
 
 
+class _Raise(_Return):
+    """an exception raised by the interpreted code: propagates through inlined calls up to a matching try/except"""
+    def __init__(self, name: str, effect: Any = None):
+        super().__init__(UNKNOWN)
+        self.name, self.effect = name, effect
+
+
 class _Loop(Exception):
     def __init__(self, kind):
         self.kind = kind
@@ -224,6 +231,8 @@ class Interp:
                 env1[fn.name] = LocalFn(fn.node, env1, fn)   # a nested function can call itself
             try:
                 rv = self.call_body(fn, env1, 0)
+            except _Raise:
+                rv = UNKNOWN
             except _Loop:
                 rv = None
             results.append((self.trace, rv, list(self.undecided)))
@@ -250,11 +259,20 @@ class Interp:
         rv = None
         try:
             self.block(fn.node.body, env, depth)
+        except _Raise:
+            if depth > 0:
+                raise
+            rv = UNKNOWN
         except _Return as r:
             rv = r.value
         if gen:
             return self._collect_yields(start)
         return rv
+
+    def throw(self, name: str, node: Any = None) -> None:
+        eff = Effect("raise", name, node=node, fn=self.fn_stack[-1] if self.fn_stack else None)
+        self.trace.append(eff)
+        raise _Raise(name.split(":")[0].split("(")[0].strip(), eff)
 
     def _collect_yields(self, start: int) -> Any:
         """the values a generator call produced: its yield effects are removed from the trace and returned as a list"""
@@ -339,8 +357,8 @@ class Interp:
         elif isinstance(st, ast.While):
             n = 0
             while self.truthy(self.ev(st.test, env, depth)):
-                if n >= 3:
-                    self.undecided.append("while loop cut after 3 iterations")
+                if n >= self.while_cap:
+                    self.undecided.append(f"while loop cut after {self.while_cap} iterations")
                     break
                 n += 1
                 try:
@@ -353,13 +371,14 @@ class Interp:
         elif isinstance(st, ast.Break):
             raise _Loop("break")
         elif isinstance(st, ast.Raise):
-            self.trace.append(Effect("raise", norm(st.exc)[:40] if st.exc is not None else "", node=st))
-            raise _Return(UNKNOWN)
+            exc = st.exc.func if isinstance(st.exc, ast.Call) else st.exc
+            from .frontend import dotted as _dotted
+            nm_ = (_dotted(exc) or "Exception").split(".")[-1] if exc is not None else "Exception"
+            self.throw(nm_ + (": " + norm(st.exc)[:40] if st.exc is not None else ""), st)
         elif isinstance(st, ast.Assert):
             v = self.ev(st.test, env, depth)
             if v is False:
-                self.trace.append(Effect("raise", "AssertionError", node=st))
-                raise _Return(UNKNOWN)
+                self.throw("AssertionError", st)
         elif isinstance(st, (ast.With, ast.AsyncWith)):
             for it in st.items:
                 v = self.ev(it.context_expr, env, depth)
@@ -367,8 +386,27 @@ class Interp:
                     self.assign(it.optional_vars, v, env, st)
             self.block(st.body, env, depth)
         elif isinstance(st, ast.Try):
-            self.block(st.body, env, depth)
-            self.block(st.orelse, env, depth)
+            try:
+                self.block(st.body, env, depth)
+            except _Raise as r:
+                handler = None
+                for h in st.handlers:
+                    names = [] if h.type is None else [x for x in ([h.type] if not isinstance(h.type, ast.Tuple) else h.type.elts)]
+                    ids = [(n_.id if isinstance(n_, ast.Name) else n_.attr if isinstance(n_, ast.Attribute) else "?") for n_ in names]
+                    if h.type is None or r.name in ids or any(i_ in ("Exception", "BaseException") for i_ in ids) \
+                            or (r.name in ("IndexError", "KeyError") and "LookupError" in ids):
+                        handler = h
+                        break
+                if handler is None:
+                    self.block(st.finalbody, env, depth)
+                    raise
+                if r.effect is not None:
+                    r.effect.kind = "caught"
+                if handler.name:
+                    env[handler.name] = Sym("exc:" + r.name)
+                self.block(handler.body, env, depth)
+            else:
+                self.block(st.orelse, env, depth)
             self.block(st.finalbody, env, depth)
         elif isinstance(st, (ast.FunctionDef, ast.AsyncFunctionDef)):
             env[st.name] = LocalFn(st, env, self.fn_stack[-1], self._defaults(st, env, depth))
@@ -558,8 +596,7 @@ class Interp:
             l, r = self.ev(e.left, env, depth), self.ev(e.right, env, depth)
             if _is_num(l) and _is_num(r):
                 if r == 0:
-                    self.trace.append(Effect("raise", "ZeroDivisionError", node=e))
-                    raise _Return(UNKNOWN)
+                    self.throw("ZeroDivisionError", e)
                 return l / r if isinstance(e.op, ast.Div) else l // r if isinstance(e.op, ast.FloorDiv) else l % r
             return UNKNOWN
         if isinstance(e, ast.BinOp) and isinstance(e.op, ast.Mult):
@@ -596,8 +633,7 @@ class Interp:
                 return base[idx]
             if isinstance(base, list) and isinstance(idx, int) and not isinstance(idx, bool) and self.strict_index \
                     and all(x is not UNKNOWN for x in base):
-                self.trace.append(Effect("raise", f"IndexError: index {idx} of a list of length {len(base)}", node=e))
-                raise _Return(UNKNOWN)
+                self.throw(f"IndexError: index {idx} of a list of length {len(base)}", e)
             if isinstance(base, DDict) and idx is not UNKNOWN:
                 k_ = self._hashable(idx)
                 if k_ not in base:
@@ -844,8 +880,7 @@ class Interp:
                     return args[0][0]
                 if len(args) == 2:
                     return args[1]
-                self.trace.append(Effect("raise", "StopIteration", node=c))
-                raise _Return(UNKNOWN)
+                self.throw("StopIteration", c)
             if nm == "tuple" and len(args) == 1 and isinstance(args[0], list):
                 return list(args[0])
             # a repository dataclass: an object with fields
@@ -970,6 +1005,9 @@ class Interp:
                     i = args[0] if args and isinstance(args[0], int) else (0 if nm == "popleft" else -1)
                     if -len(base) <= i < len(base):
                         return base.pop(i)
+                if nm in ("pop", "popleft") and self.strict_index and all(x is not UNKNOWN for x in base) \
+                        and (not args or (isinstance(args[0], int) and not isinstance(args[0], bool))):
+                    self.throw("IndexError: pop from " + ("an empty list" if not base else f"index {args[0]} of a list of length {len(base)}"), c)
                 if nm == "remove" and args and args[0] in base:
                     base.remove(args[0])
                     return None
@@ -1044,6 +1082,8 @@ def _install():
         rv = None
         try:
             self.block(node.body, cenv, depth + 1)
+        except _Raise:
+            raise
         except _Return as r:
             rv = r.value
         if gen:
@@ -1103,6 +1143,7 @@ def _install():
     Interp.allow_recursion = False
     Interp.prelude_same_object = True
     Interp.strict_index = False
+    Interp.while_cap = 3
     Interp.prelude_len = 0
 
 
